@@ -61,6 +61,9 @@ type Scenario struct {
 	FaultRate  float64   `json:"fault_rate"`  // share of TSO requests that fail (before or after the allocation)
 	YieldMaxUs int64     `json:"yield_max_us"`
 	Hooks      bool      `json:"hooks"` // install the yield hook when the library has it
+	// ValScope is the scope string of every ValidateReadTS call of the run ("" and "global" are the same scope but
+	// different single-flight keys; one key per run keeps the single-flight goroutine unique, see world.gname).
+	ValScope string `json:"val_scope"`
 	Callers    []Caller  `json:"callers"`
 	ExpPool    []ExpArgs `json:"exp_pool,omitempty"`
 	TailMs     int64     `json:"tail_ms"`
@@ -239,6 +242,7 @@ func genCalls(cfg simkit.RunConfig) *Scenario {
 		}
 		sc.Callers = append(sc.Callers, c)
 	}
+	sc.finish(r)
 	sc.TailMs = pick(r, int64(10), int64(3000), int64(12000))
 	if sc.Tempo == "adaptive" {
 		// long enough for a shrunk interval to recover (20 ms per second) while nobody reads
@@ -289,6 +293,30 @@ func genCAS(cfg simkit.RunConfig) *Scenario {
 		}
 		sc.Callers = append(sc.Callers, c)
 	}
+	sc.finish(r)
 	sc.TailMs = 5
 	return sc
+}
+
+func (sc *Scenario) finish(r *rand.Rand) {
+	sc.ValScope = scopeOf(r)
+	// cost bound: with PD latencies of up to seconds a program runs for minutes of simulated time; very short
+	// update intervals (thousands of updater fetches per run) are combined with short latencies only
+	if sc.Lat == "wide" || sc.Lat == "mixed" {
+		sc.IntervalUs = max(sc.IntervalUs, 50000)
+		for i := range sc.Callers {
+			for j := range sc.Callers[i].Calls {
+				if c := &sc.Callers[i].Calls[j]; c.Kind == "setint" && c.A > 0 {
+					c.A = max(c.A, 50000)
+				}
+			}
+		}
+	}
+	for i := range sc.Callers {
+		for j := range sc.Callers[i].Calls {
+			if c := &sc.Callers[i].Calls[j]; c.Kind == "val" {
+				c.Scope = sc.ValScope
+			}
+		}
+	}
 }
